@@ -25,9 +25,14 @@ ERROR awkward_ListArray_getitem_next_range(
       awkward_regularize_rangeslice(&regular_start, &regular_stop, step > 0,
                                     start != kSliceNone, stop != kSliceNone,
                                     length);
+      // (j += step may not be computed past regular_stop: a huge step would
+      // wrap around)
       for (int64_t j = regular_start;  j < regular_stop;  j += step) {
         tocarry[k] = fromstarts[i] + j;
         k++;
+        if (step >= regular_stop - j) {
+          break;
+        }
       }
       tooffsets[i + 1] = (C)k;
     }
@@ -43,6 +48,9 @@ ERROR awkward_ListArray_getitem_next_range(
       for (int64_t j = regular_start;  j > regular_stop;  j += step) {
         tocarry[k] = fromstarts[i] + j;
         k++;
+        if (step <= regular_stop - j) {
+          break;
+        }
       }
       tooffsets[i + 1] = (C)k;
     }
